@@ -201,10 +201,12 @@ SPEC = dict(
                 "truncation guard), LOG MATCHING `raft_log_matching`, election safety (<= 1 leader per term over the whole "
                 "history), one vote per term, leaders hold majority votes, index-consistency of logs, commit <= log length and "
                 "emitted <= commit; proved on micro-steps (phases of raft_step) and transferred to whole raft_step calls by a "
-                "refinement lemma. The theorems speak about the committed prefix `log[..commit_index]` of member states; that the "
-                "`committed` output stream of a member is exactly that prefix in order (emit loop: `emitted_index` runs up to "
-                "`commit_index`) is part of the transcription (`emitLoop`) and of the oracle, with `emitted <= commit` and no "
-                "retraction proved. The two `assert!`s of raft_step are modelled as `none` = the member takes no step (fail-stop). "
+                "refinement lemma. THE PROPERTY AS STATED, for the `committed` output streams: `raft_emitted_streams_never_diverge` "
+                "(executions `ReachOut` record everything each member has emitted; the history of a member is exactly the first "
+                "`emitted_index` entries of its log, and no two members have emitted different entries at the same position). "
+                "The two `assert!`s of raft_step are modelled as `none` = the member takes no step (fail-stop), and "
+                "`raft_step_never_panics` proves they never fire in any execution (every call on sent messages in a reachable "
+                "state returns normally). "
                 "Tie to the code: (a) the real `raft_step` is driven by a scripted "
                 "adversarial network (bounded random schedules incl. partitions, crashes, a scripted figure-8 prefix; 1-5 members) and every call's outputs + resulting state are "
                 "diffed against the compiled model, which also checks trace inclusion of the network; (b) the real Hydro program "
@@ -235,8 +237,8 @@ SPEC = dict(
                 "(kv_replica: apply in slot order) is not modelled. "
                 "For Raft the wiring of `raft_server` is exercised only on sampled "
                 "simulator schedules; `cluster_size` is taken to be the real member count (raft.rs documents it 'must match'); "
-                "the two `assert!` panics of raft_step are modelled as `none` = the member stops (never exercised by the "
-                "generator, messages are never forged); crash-recovery and membership change are out of scope (fail-stop, fixed cluster)."),
+                "the two `assert!` panics of raft_step are modelled as `none` (proved unreachable; the generator never forges "
+                "messages, so the Rust-panic <-> `none` correspondence itself is not exercised); crash-recovery and membership change are out of scope (fail-stop, fixed cluster)."),
     trusted_base=["Paxos: abstract model transcribed by hand from paxos.rs; only operators/quorum sizes/ballot order are machine-extracted, the remaining text is fingerprinted",
                   "Raft: HashSet/HashMap of raft_step modelled as duplicate-free list / association list (printed sorted)",
                   "hydro_lang::sim scheduler and the cfg-guarded trace hook in raft_step (observation only)",
